@@ -268,6 +268,17 @@ func (f *Frame) localsAt(b *ssa.BasicBlock, includeOwnPhis bool) map[string]ssa.
 	for n, c := range best {
 		out[n] = c.v
 	}
+	// a variable captured by a closure lives in a cell (go/ssa: a heap Alloc whose comment is the variable's name): its name
+	// means the cell, whatever value definitions dominate b
+	for _, blk := range f.fn.Blocks {
+		for _, ins := range blk.Instrs {
+			if al, ok := ins.(*ssa.Alloc); ok && al.Heap && al.Comment != "" && al.Comment != "new" && al.Comment != "complit" && al.Comment != "varargs" && al.Comment != "slicelit" && al.Comment != "makeslice" {
+				if _, known := out[al.Comment]; known && (blk == b || blk.Dominates(b)) {
+					out[al.Comment] = al
+				}
+			}
+		}
+	}
 	// rangeover: the slice a `for ... range expr` loop iterates over (the header compares the index with len(expr))
 	if iff, ok := b.Instrs[len(b.Instrs)-1].(*ssa.If); ok {
 		if cmp, ok := iff.Cond.(*ssa.BinOp); ok {
@@ -299,10 +310,22 @@ func (f *Frame) loopEnv(li *loopInfo, edgeFrom *ssa.BasicBlock) map[string]Val {
 			continue
 		}
 		if val, ok := f.tryVal(v); ok {
-			env[name] = val
+			env[name] = cellOrVal(v, val)
 		}
 	}
 	return env
+}
+
+// cellOrVal: a name bound to the heap cell of a captured variable denotes the cell's content, not its address.
+func cellOrVal(v ssa.Value, val Val) Val {
+	if al, isAlloc := v.(*ssa.Alloc); isAlloc && al.Heap {
+		if p, isPtr := val.(Ptr); isPtr {
+			if _, isStruct := p.Elem.Underlying().(*types.Struct); !isStruct {
+				return CellV{p}
+			}
+		}
+	}
+	return val
 }
 
 // enterLoop: check the invariants on entry, havoc what the loop changes, assume the invariants.
@@ -363,7 +386,7 @@ func (f *Frame) enterLoop(li *loopInfo) *BState {
 				continue
 			}
 			if val, ok := f.tryVal(v); ok {
-				env[name] = val
+				env[name] = cellOrVal(v, val)
 			}
 		}
 		f.addIterNames(env, li, st0.heap)
